@@ -11,9 +11,9 @@ cd $WT || exit 1
 git checkout -q -- . ; git clean -fdq -e target
 git apply $OUT/patch.diff || { echo "RESULT patch does not apply"; exit 1; }
 echo "== suite with change"
-cargo test --workspace --no-fail-fast --offline 2>&1 | grep -E "^test .* FAILED|^test result|^error" > $OUT/suite.txt
-grep -E "^error" $OUT/suite.txt && echo "RESULT compile error"
-grep -E "^test .* FAILED" $OUT/suite.txt | sort > $OUT/suite_failed.txt
+cargo test --workspace --no-fail-fast --offline 2>&1 | grep -E "^test [^ ]+ \.\.\. FAILED|^test result|^error" > $OUT/suite.txt
+grep -E "could not compile" $OUT/suite.txt && echo "RESULT compile error"
+grep -E "^test [^ ]+ \.\.\. FAILED" $OUT/suite.txt | sort > $OUT/suite_failed.txt
 cat $OUT/suite_failed.txt
 extra=$(grep -v -E "href::tests::test_valid_references|temporal::tests::test_parse_time|generator::tests::test_all_sequentially" $OUT/suite_failed.txt | wc -l)
 echo "suite failures beyond the 3 environment baseline failures: $extra"
